@@ -29,7 +29,7 @@ where
     let mut backing = [0u8; 8];
     let len: usize = kani::any();
     kani::assume(len >= nb && len <= lmax && lmax <= 8);
-    let cfg = any_cfg();
+    let cfg = Cfg { w: fw, h: fh, ox: 0, oy: 0, o: any_orientation() };
     let di = SpiInterface::new(WSpi(wp), WDc(wp), &mut backing[..len]);
     let Ok(mut d) = Builder::new(m, di)
         .display_size(cfg.w, cfg.h)
@@ -84,7 +84,7 @@ where
     let mut ww = WireWorld::new(NEVER, fw, fh, probe, nb, 8);
     ww.levels = kani::any();
     let wp: *mut WireWorld = &mut ww;
-    let cfg = any_cfg();
+    let cfg = Cfg { w: fw, h: fh, ox: 0, oy: 0, o: any_orientation() };
     let di = ParallelInterface::new(wbus8(wp), WDc(wp), WWr(wp));
     let Ok(mut d) = Builder::new(m, di)
         .display_size(cfg.w, cfg.h)
@@ -217,11 +217,11 @@ macro_rules! h {
         }
     };
 }
-//@ props=C01,C06,C08 tier=thorough inst="Display<SpiInterface, VModel<Rgb565,3,2>>" bounds="SPI buffer length 2..=5, symbolic set_pixel then a 2x2 fill_solid at a symbolic corner, all cfgs; decoded from the byte stream" timeout=3000 mem=12
+//@ props=C01,C06,C08 tier=thorough inst="Display<SpiInterface, VModel<Rgb565,3,2>>" bounds="SPI buffer length 2..=5, symbolic set_pixel then a 2x2 fill_solid at a symbolic corner, full-size window, 8 orientations; decoded from the byte stream" timeout=3600 mem=20 required=no
 h!(c01_e2e_spi_565, 10, e2e_spi_h(VModel::<Rgb565, 3, 2>::new(), 5));
-//@ props=C01,C06,C08 tier=thorough required=no inst="Display<SpiInterface, VModel<Rgb666,3,2>>" bounds="SPI buffer length 3..=7, same" timeout=3600 mem=14
+//@ props=C01,C06,C08 tier=thorough required=no inst="Display<SpiInterface, VModel<Rgb666,3,2>>" bounds="SPI buffer length 3..=7, same" timeout=3600 mem=20
 h!(c01_e2e_spi_666, 14, e2e_spi_h(VModel::<Rgb666, 3, 2>::new(), 7));
-//@ props=C01,C07,C08,C17 tier=thorough inst="Display<ParallelInterface<Generic8BitBus>, VModel<Rgb565,3,2>>, no reset pin" bounds="symbolic initial pin levels, symbolic set_pixel then a 2x2 fill_solid, all cfgs; decoded from the latched words" timeout=3000 mem=12
+//@ props=C01,C07,C08,C17 tier=thorough inst="Display<ParallelInterface<Generic8BitBus>, VModel<Rgb565,3,2>>, no reset pin" bounds="symbolic initial pin levels, symbolic set_pixel then a 2x2 fill_solid, full-size window, 8 orientations; decoded from the latched words" timeout=3600 mem=20 required=no
 h!(c01_e2e_par8_565, 10, e2e_par8_h(VModel::<Rgb565, 3, 2>::new()));
 //@ props=C12,C11,C17 tier=thorough inst="Builder+ILI9341Rgb565 over the real SpiInterface, reset pin" bounds="all options x symbolic failing low-level operation (pin set / SPI write), then a 2x1 fill_solid; unwind 20" timeout=1800 mem=10
 h!(c12_full_spi_ili9341, 20, full_spi_fault_h(mipidsi::models::ILI9341Rgb565));
